@@ -48,6 +48,8 @@ class C07(core.Check):
             ("pace", 0, (0,) * 40, (-10, -40, 5), 32, (("peek",),), 3, (1, 0, 2)),
             # no doers at all: still one paced cycle; late by exactly two tocks
             ("pace", 0, (0,) * 20, (), 32, (), 0, ()),
+            # the doer extends / removes doers in mid-cycle after the clock moved 12 inside that cycle (C07-r3m1 class)
+            ("pace", 0, (0, 0, 0, 12, 0, 0, 0, 5) + (0,) * 30, (), 32, (), 5, ((1, 1), (2, 3), 0, (1, 2), 0)),
             ("pace", 0, (0,) * 40, (64, 0), 32, (), 4, (0, 0, 0, 0)),
             # raw floats: sleeps land exactly on the float deadline; tock reassigned
             # the same Doist run twice: Ctrl-C in the middle of run 1, clock stepped back, tock changed, second run through doist()
@@ -170,6 +172,8 @@ class C07(core.Check):
             f.append("sleep-early-or-step-back-asleep")
         if any(xs):
             f.append("extra-readings-by-doer")
+        if any(isinstance(x, tuple) for x in xs):
+            f.append("doer-extends-or-removes-mid-cycle")
         sl = [e[1] for e in obs[1] if e[0] == "s"]
         f.append(f"sleeps~{min(len(sl), 10)}")
         if any(d == 0 for d in sl):
